@@ -2,7 +2,8 @@ import Cpppo.Model.Wire
 import Cpppo.Model.Session
 import Cpppo.Driver.Logix
 /-!
-driver: `sess <fixed 0|1> <route> <routes> <size|-> <maxBytes> <tags> <rand> <sessions>`
+driver: `sess <fixed 0|1> <route> <routes> <size|-> <refusing> <maxBytes> <tags> <rand> <sessions>`
+  refusing = addresses `c.i.a,…` of the Attributes whose store raises ("-" = none)
   route  = `*` (UCMM.route_path None) | `-` (falsy) | `port:link,…`
   routes = routing table keys `port:link,…` ("-" = none)
   sessions = connections joined by '!', each a list of frames
@@ -101,7 +102,7 @@ def serveSessionsSingly (cfg : Cfg) : Srv → List (List Frame) → List Run
 def showRuns (rs : List Run) : String := " // ".intercalate (rs.map showRun)
 
 def handle : List String → Option String
-  | ["sess", fixed, route, routes, size, maxb, tags, rand, sessions] => do
+  | ["sess", fixed, route, routes, size, refusing, maxb, tags, rand, sessions] => do
     let fixed ← parseBool fixed
     let cfg : Cfg := { route := ← parseRouteCfg route, routes := ← parseRoute routes, size := ← optNat size }
     let maxb ← maxb.toNat?
@@ -110,8 +111,12 @@ def handle : List String → Option String
     let d := specs.foldl addTag d0
     let rand ← (splitNonEmpty rand ',').mapM (·.toNat?)
     let ss ← (splitOn sessions '!').mapM fun x => (splitNonEmpty x ';').mapM parseFrame
-    let s : Srv := { dev := d, rand := rand }
-    if !ss.all (·.all (·.inScope cfg d)) then pure "out-of-scope" else
+    let refusing ← (splitNonEmpty refusing ',').mapM fun x =>
+      match splitOn x '.' with
+      | [c, i, a] => do pure (← c.toNat?, ← i.toNat?, ← a.toNat?)
+      | _ => none
+    let s : Srv := { dev := d, rand := rand, refusing := refusing }
+    if !ss.all (·.all (·.inScope cfg d refusing)) then pure "out-of-scope" else
     if fixed then
       pure (showRuns (serveSessions cfg s ss) ++ " || " ++ showRuns (serveSessionsSingly cfg s ss) ++ " || same")
     else
